@@ -96,9 +96,11 @@ def check(chk: Check) -> None:
                                                    'every later error is reported on too early a line')
             else:
                 chk.unrec(R1, 't_%s' % name, where, 'line counting of a rule with an unbounded language is not in a recognised form')
-            continue
+            if not rm.samples:
+                continue
         tparam = ('param', rm.rule.func.args.args[0].arg)
-        for text in sorted(rm.texts):
+        # (an unbounded language is also judged on its shortest members, every loop taken at most twice)
+        for text in (sorted(rm.texts) if rm.texts is not None else sorted(rm.samples, key=lambda x: (len(x), x))[:12]):
             want = text.count('\n')
             for d in (0, 1, 3):
                 ps = LF.specialise(F, lm, name, text, d if depth else None, depth)
@@ -174,6 +176,44 @@ def check(chk: Check) -> None:
         if om.mentions(msg, ('attr', tok, 'type')) and not om.mentions(msg, ('attr', tok, 'value')):
             problems.append('the message names the token type instead of its text')
     chk.require(not problems, R2, fi.qual + ' [token given]', fi.where, '; '.join(sorted(set(problems))) or 'message interpolates p.value and p.lineno')
+    # ... and the exception class passes the message on as it was built: a constructor or __str__ of its own that shortens,
+    # re-formats or replaces the text can drop the line (the last part of the message) again
+    for cq in F.mro(om.PARSER_ERROR) + [q_ for q_ in F.subclasses(om.PARSER_ERROR) if q_ != om.PARSER_ERROR]:
+        ci = F.classes.get(cq)
+        if ci is None:
+            continue
+        probs = []
+        for mn in ('__str__', '__new__', '__init__'):
+            mq = cq + '.' + mn
+            if mn not in ci.methods or mq not in F.functions:
+                continue
+            mfi = F.func(mq)
+            a_ = mfi.node.args
+            own = {('param', x.arg) for x in a_.args[1:] + a_.kwonlyargs}
+            if a_.vararg:
+                own |= {('param', '*' + a_.vararg.arg), ('star', ('param', '*' + a_.vararg.arg)), ('param', a_.vararg.arg), ('star', ('param', a_.vararg.arg))}
+            for p in SymExec(F, mfi).run():
+                if not p.normal:
+                    continue
+                if mn == '__str__':
+                    r = freeze(p.outcome[1])
+                    if not (isinstance(r, tuple) and r[:1] == ('call',) and isinstance(r[2], tuple) and r[2][:1] == ('attr',)
+                            and isinstance(r[2][1], tuple) and r[2][1][:1] == ('super',) and r[2][2] == '__str__'):
+                        probs.append('%s.__str__ returns %s, not the message' % (cq.rsplit('.', 1)[-1], show(r)[:80]))
+                    continue
+                ups = [e for e in p.events if e.kind == 'call' and isinstance(freeze(e.func), tuple) and freeze(e.func)[:1] == ('attr',)
+                       and isinstance(freeze(e.func)[1], tuple) and freeze(e.func)[1][:1] == ('super',) and freeze(e.func)[2] == mn]
+                if not ups:
+                    probs.append('a path of %s.%s does not hand the message to the base class' % (cq.rsplit('.', 1)[-1], mn))
+                for e in ups:
+                    given = [x for x in freeze(e.args) if x != ('param', a_.args[0].arg)]
+                    if not given or any(x not in own for x in given):
+                        probs.append('`%s` in %s.%s passes on %s instead of the arguments it received' % (
+                            e.text(), cq.rsplit('.', 1)[-1], mn, ', '.join(show(x) for x in given if x not in own)[:120] or 'nothing'))
+        if probs or any(mn in ci.methods for mn in ('__str__', '__new__', '__init__')):
+            chk.require(not probs, R2, '%s keeps the message' % cq, '%s:%d' % (ci.module.rel, ci.node.lineno),
+                        '; '.join(sorted(set(probs))[:2]) + ': the text p_error built (token, then line) is changed on its way to the host' if probs
+                        else 'the constructor passes its arguments on unchanged')
     problems = []
     nonepaths = SymExec(F, fi, args={pn: ('const', None)}).run()
     for p in nonepaths:
